@@ -6,7 +6,7 @@ def xlines(lines, n):
     return sorted(l for l in lines if l.startswith("X "))
 
 def run(chk):
-    r = standard_run(chk, PROFILE, 1200, 30000)
+    r = standard_run(chk, PROFILE, 3000, 40000)
     if r is None: return
     drv, impl, scns, ms, ds = r
     def judge(scn, i, dp, mp):
